@@ -16,7 +16,12 @@ try:
             r = subprocess.run("/verif/check %s quick" % p, shell=True, cwd="/verif", env=env, stdout=subprocess.PIPE, stderr=subprocess.STDOUT)
             out = r.stdout.decode(errors="replace")
             lines = [l for l in out.splitlines() if not l.startswith("build:")]
-            res["checks"][p] = {"exit": r.returncode, "wall_s": round(time.time() - t0, 1), "head": "\n".join(lines[:6])[:1500]}
+            nfail = None
+            try:
+                nfail = json.load(open("/verif/evidence/%s.json" % p)).get("violations")
+            except Exception:
+                pass
+            res["checks"][p] = {"exit": r.returncode, "wall_s": round(time.time() - t0, 1), "head": "\n".join(lines[:6])[:1500], "failing_runs": nfail}
 finally:
     subprocess.run("git -C /repo checkout -- .", shell=True)
 print(json.dumps(res), flush=True)
